@@ -256,7 +256,16 @@ def gen_cases(seed, tier):
 
     def sv(pw, s, uid, login, kind=None):
         stats['glue_server_version_login'] += 1
-        return 'SV %s %d %d %s %s' % (hexs(pw), s % M32, uid, kind or rng.choice('NT'), hexs(login))
+        line = 'SV %s %d %d %s %s' % (hexs(pw), s % M32, uid, kind or rng.choice('NT'), hexs(login))
+        if rng.randrange(3):
+            # then the raw login of the same session: challenge+1 up (sometimes a wrong one), challenge-1 expected back
+            k = rng.randrange(6)
+            raw = doc_login(pw, s + 1) if k <= 3 else (doc_login(pw, s) if k == 4 else flip(doc_login(pw, s + 1), rng))
+            if rng.randrange(8) == 0:
+                raw = raw + bytes(rng.randrange(256) for _ in range(rng.randrange(1, 5)))
+            line += ' ' + hexs(raw)
+            stats['glue_server_raw_after_login'] = stats.get('glue_server_raw_after_login', 0) + 1
+        return line
 
     def srv_login(pw, s):
         k = rng.randrange(8)
@@ -415,6 +424,18 @@ def oracle(case, out):
         ok = login == doc_login(pw, r)
         want = 'reply=%s seed=%d rand_calls=1 login=%s auth=%d' % (
             (b'VACK' + r.to_bytes(4, 'big') + bytes([uid])).hex(), r, 'ACCEPT' if ok else 'LNAK', 1 if ok else 0)
+        if len(t) >= 7:
+            raw = unh(t[6])
+            rawok = ok and len(raw) >= 16 and raw[:16] == doc_login(pw, r + 1)
+            want_raw = doc_login(pw, r - 1).hex() if rawok else 'NONE'
+            if out == want + ' raw=' + want_raw:
+                return None
+            if out.startswith(want + ' raw='):
+                return ('raw login after the DNS login of the same session (challenge 0x%08x from the version reply, login %s): the server '
+                        'answers %s to the raw login %s; the document prescribes %s (MD5 with challenge+1 towards the server, '
+                        'challenge-1 back)' % (r, 'accepted' if ok else 'refused', out.split(' raw=')[1], 'for challenge+1' if
+                                               raw[:16] == doc_login(pw, r + 1) else 'that is not for challenge+1', want_raw))
+            want = want + ' raw=' + want_raw
         if out == want:
             return None
         f = dict(x.split('=', 1) for x in out.split(' ') if '=' in x)
